@@ -385,8 +385,9 @@ var sharedRules = map[string][]string{
 	// under index collisions is part of what makes layout unobservable
 	"C16": {"C15/LOAD-SORT", "C08/SCO-ORDER", "C12/REP-INTMAP", "C08/SCO-KEYS"},
 	// natives are reached through the same call sequence as script functions: operand order and the hidden callee slot
-	"C19": {"C12/REP-STRUCT", "C11/REP-STACKESCAPE", "C03/PAN-CONVERT", "C20/BT-ORDER", "C09/LAY-EVALORDER", "C08/SCO-DECL", "C02/HND-AGREE", "C09/FRM-PARAMSLOT", "C12/REP-INTMAP", "C07/PAR-RESIZE", "C13/GLOBAL-STATE", "C03/PAN-PREFIX"},
+	"C19": {"C12/REP-STRUCT", "C11/REP-STACKESCAPE", "C03/PAN-CONVERT", "C20/BT-ORDER", "C09/LAY-EVALORDER", "C08/SCO-DECL", "C02/HND-AGREE", "C09/FRM-PARAMSLOT", "C12/REP-INTMAP", "C07/PAR-RESIZE", "C13/GLOBAL-STATE", "C03/PAN-PREFIX", "C07/PAR-ROLE"},
 	"C20": {"C08/SCO-SWAP", "C19/FUNC-ISOLATED"},
+	"C15": {"C16/ALIAS-EXPAND"},
 	// what a declaration in a loop body re-executes must survive the optimiser
 	"C08": {"C09/FRM-PARAMSLOT", "C02/HND-AGREE"},
 	"C17": {"C08/SCO-ORDER", "C09/FRM-METHOD", "C12/REP-STRUCT", "C02/HND-AGREE", "C19/API-ACCESSOR"},
